@@ -691,6 +691,60 @@ def _iaddp(L, a, p):
     return _lv(_safe(f), L)
 
 
+def offset_invariance(tier):
+    """The trajectory weights of the dynamic transitions are exp(-h): adding a constant to the energy multiplies every
+    weight by the same factor 2^s, which the exact model (values with c = 0 do not depend on B) says cannot change a
+    ratio of weights -- so chains with energy offsets at which exp(-h) over/underflows must make the same decisions."""
+    import numpy as np
+    import mici
+
+    viol, runs = [], 0
+    n_iter = 25 if tier == "quick" else 120
+
+    def chain(offset, cls):
+        system = mici.systems.EuclideanMetricSystem(neg_log_dens=lambda q: 0.5 * float(q @ q) + 0.1 * float(q[0]) ** 4 + offset,
+                                                    grad_neg_log_dens=lambda q: q + 0.4 * np.array([q[0] ** 3, 0.0, 0.0]))
+        integrator = mici.integrators.LeapfrogIntegrator(system, step_size=0.45)
+        trans = cls(system, integrator, max_tree_depth=5)
+        mom = mici.transitions.IndependentMomentumTransition(system)
+        rng = np.random.default_rng(11)
+        state = mici.states.ChainState(pos=np.array([0.3, -1.2, 0.8]), mom=None, dir=1)
+        out = []
+        for _ in range(n_iter):
+            state, _ = mom.sample(state, rng)
+            state, stats = trans.sample(state, rng)
+            out.append((np.array(state.pos), stats["n_step"], float(stats["av_metrop_accept_prob"]), float(stats["reject_prob"]),
+                        bool(stats["diverging"])))
+        return out
+
+    for cls_name in ("MultinomialDynamicIntegrationTransition", "SliceDynamicIntegrationTransition"):
+        cls = getattr(mici.transitions, cls_name)
+        ref = chain(0.0, cls)
+        for offset in (800.0, -800.0, 1.0e4, -1.0e4) + ((1.0e5, -1.0e5, 745.0, -709.0) if tier != "quick" else ()):
+            runs += 1
+            rp = {"fn": "offset", "args": [cls_name, offset], "tier": tier}
+            try:
+                got = chain(offset, cls)
+            except Exception as e:  # noqa: BLE001
+                viol.append((f"C20:transition-weights:{cls_name}:exception:{type(e).__name__}", f"{cls_name} with the energy shifted by "
+                             f"{offset:g} raised {type(e).__name__}: {e}", dict(rp, engine="logweights-numeric")))
+                continue
+            for i, (a, b) in enumerate(zip(ref, got)):
+                bad = None
+                if not np.all(np.isfinite(b[0])) or math.isnan(b[2]) or math.isnan(b[3]):
+                    bad = "non-finite state or statistics"
+                elif a[1] != b[1] or a[4] != b[4] or not np.allclose(a[0], b[0], atol=1e-6):
+                    bad = f"different decision: state {b[0].tolist()} after {b[1]} steps instead of {a[0].tolist()} after {a[1]}"
+                elif abs(a[3] - b[3]) > 1e-6 or abs(a[2] - b[2]) > 1e-6:
+                    bad = f"statistics differ: reject_prob {b[3]!r} vs {a[3]!r}, accept {b[2]!r} vs {a[2]!r}"
+                if bad:
+                    viol.append((f"C20:transition-weights:{cls_name}:{'overflow' if offset < 0 else 'underflow'}",
+                                 f"{cls_name}, energy shifted by {offset:g} (all trajectory weights scaled by exp({-offset:g})): iteration {i}: {bad}",
+                                 dict(rp, engine="logweights-numeric")))
+                    break
+    return viol, runs
+
+
 def check_all(tier, name, seed=0):
     progs, stats = run_spec(tier, name)
     bases = BASES_QUICK if tier == "quick" else BASES_THOROUGH
@@ -706,5 +760,8 @@ def check_all(tier, name, seed=0):
     if not pv:
         raise MachineryError("binding self-test failed: a corrupted exact value was accepted")
     nviol, nn = numeric_checks(tier, seed)
+    oviol, on = offset_invariance(tier)
+    nviol += oviol
+    nn += on
     return {"viol": viol + nviol, "stats": stats, "programs": len(progs), "bases": [_bs(b) for b in bases], "counts": counts,
             "numeric_points": nn, "sample": progs[len(progs) // 2]}
